@@ -16,7 +16,9 @@ META = {
         "map/parallel branches, x crash plan concentrated between 'attempt start recorded' and 'attempt outcome "
         "recorded' (on entry of the user function, before/after the backend calls) for the first AND the retry attempts "
         "x schedules x backend flags. Oracle: entry counter keyed by (position, backend attempt counter at entry) <= 1; at "
-        "every entry the backend already holds the step as STARTED for that attempt (start durably recorded first). "
+        "every entry the backend already holds the step as STARTED for that attempt (start durably recorded first); an attempt "
+        "found interrupted is put to the retry strategy as THAT attempt (1 + recorded retries). Extra stages: strategies at "
+        "their limit (attempt k of max k interrupted), and a schema-checking custom serializer that rejects the recorded result. "
         "Plus fault enumeration: eight fixed programs (at-most-once step in child/map/parallel, after an asynchronous record, after 0.15 s of plain computation so that its START is queued behind a call in flight, "
         "retrying) x backend latency 0/0.2 s x every backend call of the first three invocations failing once (2 classes x "
         "request/response lost). Non-trivial = an invocation died strictly inside an at-most-once attempt; extra class: inside attempt >= 2; "
@@ -153,6 +155,49 @@ FAULT_BASES = [
 ]
 
 
+@st.composite
+def fragile_cases(draw):
+    """At-most-once steps with a schema-checking custom serializer that stops accepting recorded payloads from invocation
+    k on: a recorded success that cannot be read back fails the execution, it is never a licence to run the function again."""
+    body = []
+    for _ in range(draw(st.integers(1, 2))):
+        s_ = draw(_most_steps())
+        s_["serdes"] = "fragile"
+        body.append(s_ if draw(st.booleans()) else {"op": "child", "body": [s_]})
+        body.append(draw(G.waits(2)))
+    body.append(draw(G.steps(sems=("least",), allow_fail=False)))
+    return {"prog": {"body": body}, "backend": draw(G.backend_cfgs()), "plan": {"crashes": []}, "sched": draw(G.schedules()), "line": [],
+            "serdes_break": draw(st.sampled_from([1, 1, 2, 3]))}
+
+
+def _fragile_stage(ctx):
+    from .. import wfcheck as WC
+
+    WC.run_generated(ctx, fragile_cases(), PROPS, n_cases=max(10, ctx.budget["random_cases"] // 3), nontrivial=lambda r, c: None,
+                     classes=lambda r, c: ["custom-serializer-rejects-recorded-payload"] + classes(r, c), seed_offset=17)
+
+
+def _limit_stage(ctx):
+    """Strategies at their limit: attempt k of max k is interrupted (crash on entry of the function in every invocation
+    in turn), for decision tables and packaged strategies."""
+    from .. import wfcheck as WC
+
+    n = 0
+    for mx in (1, 2, 3):
+        for retry in ({"kind": "table", "max": mx, "delays": [1], "nonretry": []},
+                      {"kind": "config", "cfg": {"max_attempts": mx, "initial": 1, "max_delay": 4, "rate": 2, "jitter": "NONE", "types": None, "errors": None}}):
+            step = {"op": "step", "beh": {"kind": "fail_then_ret", "k": 5, "err": "UserError", "v": 1}, "sem": "most", "retry": retry}
+            for body in ([step], [{"op": "child", "body": [step]}]):
+                for inv in range(mx):
+                    case = {"prog": {"body": body}, "backend": {"response": "delta"}, "plan": {"crashes": [{"inv": inv, "at": "user", "n": 0}]}, "sched": [{"mode": "seq"}], "line": [], "randoms": [0.5]}
+                    if ctx.nshards > 1 and n % ctx.nshards != ctx.shard % ctx.nshards:
+                        n += 1
+                        continue
+                    n += 1
+                    WC.report_case(ctx, case, PROPS, nontrivial=nontrivial, classes=lambda r, c: ["interrupted-at-the-strategy-limit"] + classes(r, c))
+    ctx.extra["limit_cases"] = n
+
+
 def _fault_stage(ctx):
     """Fault enumeration with calls in flight (backend latency 0 / 0.2 s): every backend call of the first three
     invocations fails once while an at-most-once START may be queued behind it."""
@@ -169,4 +214,4 @@ def _fault_stage(ctx):
     ctx.extra["fault_points_enumerated"] = total
 
 
-install(globals(), props=("C04",), cases=cases, nontrivial=nontrivial, classes=classes, stages=(_enumerate_inside_attempts, _fault_stage))
+install(globals(), props=("C04",), cases=cases, nontrivial=nontrivial, classes=classes, stages=(_enumerate_inside_attempts, _fault_stage, _fragile_stage, _limit_stage))
